@@ -32,6 +32,7 @@ seed = int(sys.argv[1]) if len(sys.argv) > 1 else 0
 tier = sys.argv[2] if len(sys.argv) > 2 else "quick"
 only = sys.argv[3] if len(sys.argv) > 3 else None
 tmp = tempfile.mkdtemp()
+__import__("atexit").register(__import__("shutil").rmtree, tmp, True)
 
 FORMATS = ["fchk", "molden", "molekel", "wfn", "wfx"]
 OWN = {"fchk": fchk.CONVENTIONS, "molden": molden.CONVENTIONS, "molekel": molden.CONVENTIONS, "wfn": wfn.CONVENTIONS, "wfx": wfn.CONVENTIONS}
